@@ -29,6 +29,7 @@ def reclaim(case, res):
         opts = dict(prm.get("opts") or {})
         if mode == "hostile":
             opts["per_conn_ids"] = False      # (the hostile generator numbers its ids itself)
+            opts["odd_ids"] = False
         b = Bus(S, rng, opts)
         b.start()
         n = prm.get("n_ops", 60)
